@@ -126,6 +126,8 @@ def main(tier, seed, replay=None):
         elif k < 0.4:
             t, f = gsyn.gen_file(r, (), ndecl=r.randint(2, 5))
             p = {"name": "syn", "files": {"syn.incn": t}, "entry": "syn.incn", "features": {"gsyn"} | set(list(f)[:3]), "unknown_crate": None}
+        elif k < 0.5:
+            p = gproj.gen_same_name_project(r)
         else:
             p = gproj.gen_project(r, allow_unknown=(r.random() < 0.1), multi=(r.random() < 0.4))
         projs.append(p)
@@ -135,7 +137,7 @@ def main(tier, seed, replay=None):
             sig = compare(inst)
             ntriv = len(p["features"]) >= 2 or "illtyped.multi_diag" in p["features"]
             for f in p["features"]:
-                if "." in f or f in ("async", "multi_file", "json_stringify", "gsyn"):
+                if "." in f or f in ("async", "multi_file", "json_stringify", "gsyn", "web"):
                     run.features[f] = run.features.get(f, 0) + 1
             case = {"name": p["name"], "files": p["files"], "entry": p["entry"], "instances": n_inst, "seed": seed, "features": sorted(p["features"])}
             key = sha(repr(sorted(p["files"].items())))[:12]
